@@ -68,6 +68,7 @@ var specs = map[string]*propSpec{
 			{Path: "./pkg/database", Touch: true, TouchLocalMaps: true},
 			{Path: "./pkg/redis", Touch: true, TouchLocalMaps: true},
 			{Path: "./pkg/mongodb", Touch: true, TouchLocalMaps: true},
+			{Path: "./pkg/httpclient", Touch: true, CallReplace: map[string]string{"net/http.Client.Do": "SimClientDo"}},
 		},
 		QuickSecs: 50, ThoroughSecs: 600, Chunk: 50,
 		Rule: "each run is one of: (S-pure) 2-8 request tasks, 1-4 requests each, on one long-lived server built by the real pipeline from a corpus of routes without providers (deep recursion, generic functions instantiated at different types, loops, strings, async blocks, query parameters, typed input, auth+ratelimit), compiled or interpreter mode, each response compared with the response the same request gets alone on a fresh server; (S-prov) the same with single-operation provider routes (mock database, Redis, MongoDB) plus atomicity invariants; (P) 2-4 tasks calling the mock providers' Go API directly, history checked for linearizability against a fresh mock replaying the candidate order; preemption at evaluation steps (EvaluateExpression, ExecuteStatement, VM.step), locks, atomics and race probes (including values handed to JSON encoders) (the corpus includes a typed route whose object/list literal defaults are mutated in place, and database routes over a list-valued column with a filter the store cannot evaluate, whose panic is contained as net/http contains it); a run is non-trivial if at least two tasks were runnable at once and a preemption happened; distinct = distinct fingerprints (schedule hash combined with workload tape) among those",
@@ -79,8 +80,10 @@ var specs = map[string]*propSpec{
 			{"pkg/server middleware and JSON response encoding", "real-woven", "L0 + race probes + deep read probes before encoding"},
 			{"TCP sockets / net/http server loop", "stub", "handler invoked directly with httptest requests"},
 			{"real database / Redis / MongoDB servers", "not-run", "the in-memory mocks are what `glyph run` uses without configuration"},
+			{"pkg/httpclient Handler behind the http.* builtins (per-call timeout / redirect options)", "real-woven", "L0 + race probes; (*http.Client).Do redirected"},
+			{"upstream HTTP servers, http.Client transport", "stub", "simulated upstream: a pure function of the request with simulated latency (5 ms - 40 s); the client's Timeout and redirect policy are honoured as net/http honours them"},
 		},
-		FaultKinds: []string{"clock-jump"},
+		FaultKinds: []string{"clock-jump", "slow-upstream"},
 	},
 	"C19": {
 		ID: "C19", Title: "a failed reload never takes the dev server down",
